@@ -692,27 +692,24 @@ pub async fn run_utxo_to_issuance_converter(threshold: Currency) {
         let (sender, _receiver) = tokio::sync::mpsc::channel::<IoEvent>(100);
         Wallet::load(&mut wallet, &(RustIOHandler::new(sender, 1))).await;
     }
+    // one read guard, released before the context is built: three `read().await` temporaries in
+    // one statement are three guards alive at once, and a writer queued in between blocks the
+    // later ones behind a guard this task itself still holds
+    let (genesis_period, social_stake, social_stake_period) = {
+        let configs = configs_clone.read().await;
+        let consensus = configs.get_consensus_config().unwrap();
+        (
+            consensus.genesis_period,
+            consensus.default_social_stake,
+            consensus.default_social_stake_period,
+        )
+    };
     let context = Context::new(
         configs_clone.clone(),
         wallet,
-        configs_clone
-            .read()
-            .await
-            .get_consensus_config()
-            .unwrap()
-            .genesis_period,
-        configs_clone
-            .read()
-            .await
-            .get_consensus_config()
-            .unwrap()
-            .default_social_stake,
-        configs_clone
-            .read()
-            .await
-            .get_consensus_config()
-            .unwrap()
-            .default_social_stake_period,
+        genesis_period,
+        social_stake,
+        social_stake_period,
     );
 
     let (sender_to_network_controller, _receiver_in_network_controller) =
